@@ -71,7 +71,7 @@ def main():
     sh("git -C /repo worktree add -q %s HEAD" % wt)
     try:
         # demo on the clean tree
-        rc0, out0 = run_demo(wt, d, meta)
+        rc0, out0 = (0, "") if "--skip-suite" in extra else run_demo(wt, d, meta)
         res["demo_clean_exit"] = rc0
         rc, out = sh("git apply %s" % os.path.join(d, "patch.diff"), cwd=wt)
         if rc != 0:
@@ -82,20 +82,25 @@ def main():
         if rc != 0:
             res["error"] = out[-800:]
             print(json.dumps(res)); return 2
-        rc, out = sh("go test -vet=off -count=1 ./...", cwd=wt)
-        res["suite_passes"] = rc == 0
-        if rc != 0:
-            res["suite_tail"] = out[-800:]
-        rc1, out1 = run_demo(wt, d, meta)
-        res["demo_patched_exit"] = rc1
-        res["demo_ok"] = (rc0 == 0 and rc1 != 0)
-        if not res["demo_ok"]:
+        if "--skip-suite" in extra:
+            res["suite_passes"] = None
+            res["demo_ok"] = None
+            rc1, out1 = 0, ""
+        else:
+            rc, out = sh("go test -vet=off -count=1 ./...", cwd=wt)
+            res["suite_passes"] = rc == 0
+            if rc != 0:
+                res["suite_tail"] = out[-800:]
+            rc1, out1 = run_demo(wt, d, meta)
+            res["demo_patched_exit"] = rc1
+            res["demo_ok"] = (rc0 == 0 and rc1 != 0)
+        if res["demo_ok"] is False:
             res["demo_clean_tail"] = out0[-600:]
             res["demo_patched_tail"] = out1[-600:]
         if "--demo-only" not in extra:
             t0 = time.time()
             env = dict(ENV, VERIF_REPO=wt)
-            p = subprocess.run(["./check", prop, "--no-evidence"] + [a for a in extra if a != "--demo-only"], cwd="/verif", env=env,
+            p = subprocess.run(["./check", prop, "--no-evidence"] + [a for a in extra if a not in ("--demo-only", "--skip-suite")], cwd="/verif", env=env,
                                stdout=subprocess.PIPE, stderr=subprocess.STDOUT, text=True)
             res["check_exit"] = p.returncode
             res["check_wall_s"] = round(time.time() - t0, 1)
